@@ -170,7 +170,7 @@ variable {X : SchemaX} {o : VOpts} {fuel : Nat} {sk : List STree} {ks : List DNo
 include C
 
 theorem cpl_facts : LevelFacts X o fuel cx1 cx2 cx3 sk ks :=
-  level_facts X o C.hop C.hq fuel cx1 cx2 cx3 sk ks C.hls C.hg C.hlen
+  level_facts X o C.hop C.hq fuel cx1 cx2 cx3 sk ks C.hls C.hg C.hlen (fun k hk => C.hio k (C.hb k hk))
 
 theorem cpl_fresh : isFreshL ks = true := goodL_fresh X sk ks C.hg
 
